@@ -309,6 +309,9 @@ def run_prop(prop, tier, seed):
         res.violation(key, "+".join(sorted(clauses)),
                       f"{m['fn']}({m['A']}, {m['B']}) lift_s={m['lift'][0]:.4g} on1={r['on1']} on2={r['on2']} consist={r['consist']} dErr={r['dErr']} "
                       f"cert={r['cert']} zeroCommon={r['zeroCommon']} exc={r['exc']} finite={r['finite']}", {"meta": m, "record": r, "seed": seed})
+    from .. import segseg
+    segseg.run(res, tier, seed, prop)     # case-analysis explorer SegSeg.tla: model checking + every explored configuration replayed
+    segseg.run_pt(res, tier, seed, prop)  # the same for point_to_triangle (PointTri.tla)
     res.coverage["evaluations"] = len(recs)
     res.coverage["exact"] = sum(1 for r in recs if r["exact"])
     res.coverage["float_judged"] = sum(1 for r in recs if not r["exact"] and r["optJudged"])
